@@ -1,5 +1,5 @@
 /- Line-protocol driver: `lake env lean --run Main.lean <module> < ops > observations` -/
-import SmVerif.Model.DriverMh
+import SmVerif.Drivers
 
 open Sm
 
